@@ -39,9 +39,16 @@ template <int S> struct Runner {
     c.st.obs(fmt("%s/%s", what, order_name(S)), res);
     if (res > th) fail(what, p, fmt("got %.17g want %.17g res %.3g", got, want, res));
   }
-  void run_problem(const Prob &p, bool sparse_last = false) {
+  // object reached through a history: built from `prior`, queried, then updated to `p` (route 1: duration overload, 2: time-point overload)
+  template <int DD> static Spl<S, DD> via(const Problem<DD> &prior, const Problem<DD> &p, int route) {
+    Spl<S, DD> s = build<S, DD>(prior); (void)s.getEnergy(); (void)s.getEnergyGrad(); (void)s.getTrajectory().evaluate(prior.t0 + 0.25 * prior.T[0], 1);
+    if (route == 2) s.update(p.timepoints(), p.P, p.bc); else s.update(p.T, p.P, p.t0, p.bc);
+    return s;
+  }
+  void run_problem(const Prob &p, bool sparse_last = false, const Prob *prior = nullptr, int route = 0) {
     const int N = p.N, n = M * N;
-    Sp sp = build<S, D>(p);
+    Sp sp = prior ? via<D>(*prior, p, route) : build<S, D>(p);
+    if (prior) { ++c.st.comparisons; if (!mat_bits_equal(sp.getSpacePoints(), p.P)) { fail("update-keeps-old-waypoints", p, "getSpacePoints() after update() is not the matrix that was passed"); return; } }
     const auto &C = sp.getTrajectory().getCoefficients();
     // dense dyadic upstream gradient
     Lcg g((uint64_t)c.args.seed + 99);
@@ -60,7 +67,7 @@ template <int S> struct Runner {
     double tscale = 0, etscale = 0;
     for (int d = 0; d < D; ++d) {
       Problem<1> q = coord(p, d);
-      Sp1 s1 = build<S, 1>(q);
+      Sp1 s1 = prior ? via<1>(coord(*prior, d), q, route) : build<S, 1>(q);
       const auto &C1 = s1.getTrajectory().getCoefficients();
       double gs = 0; for (int i = 0; i < N; ++i) { double tp = 1; for (int k = 0; k < M; ++k) { gs = std::max(gs, std::fabs(C1(i * M + k, 0)) * tp); tp *= p.T[i]; } }
       for (int i = 0; i < N; ++i) { double tp = 1; for (int k = 0; k < M; ++k) { double sc = gs / tp; ++c.st.comparisons; if (!bits_equal(C(i * M + k, d), C1(i * M + k, 0))) bitwise = false; double res = gs > 0 ? std::fabs(C(i * M + k, d) - C1(i * M + k, 0)) / sc : (C(i * M + k, d) != 0 ? 1.0 : 0.0); c.st.obs(fmt("coeffs/%s", order_name(S)), res); if (res > thr(S)) { fail("coeffs-vs-1D", p, fmt("seg %d power %d dim %d: %.17g vs %.17g", i, k, d, C(i * M + k, d), C1(i * M + k, 0))); return; } tp *= p.T[i]; } }
@@ -119,6 +126,12 @@ template <int S> struct Runner {
     run_problem(p, true);
     // mixed boundary data: coordinate 0 generic, the last coordinate at rest in velocity and acceleration at both ends but with non-zero jerk
     if (D > 1) { Prob m = p; for (int side = 0; side < 2; ++side) { bc_ref(m.bc, side, 1)(D - 1) = 0.0; bc_ref(m.bc, side, 2)(D - 1) = 0.0; bc_ref(m.bc, side, 3)(D - 1) = side ? -0.75 : 1.5; } run_problem(m); run_problem(m, true); }
+    // the same comparison on objects reached by update(): coordinate 0 lives in a map frame (+2^22), the last coordinate is O(1) and one of
+    // its waypoints moves by 2^-22 between the two fits (far below any tolerance taken relative to the WHOLE waypoint matrix), durations,
+    // start time and boundary states unchanged: the D-dimensional object and the 1-D objects go through the same two steps (C13-m5)
+    if (D > 1) { Prob a = p; for (int i = 0; i <= N; ++i) a.P(i, 0) += 4194304.0; Prob b = a; b.P((N + 1) / 2, D - 1) += 2.384185791015625e-07;
+      run_problem(b, false, &a, 1); run_problem(b, false, &a, 2);
+      Prob b2 = a; b2.bc.start_velocity(D - 1) += 2.384185791015625e-07; b2.bc.end_velocity(D - 1) -= 2.384185791015625e-07; run_problem(b2, false, &a, 1); }
     { Spl<S, D> sz = build<S, D>(z); const auto &C = sz.getTrajectory().getCoefficients(); ++c.st.comparisons; for (int d = 0; d + 1 < D; ++d) if (C.col(d).cwiseAbs().maxCoeff() != 0.0) { fail("cross-talk", z, fmt("coordinate %d has non-zero coefficients although only coordinate %d has data", d, D - 1)); break; } }
   }
 };
